@@ -1,6 +1,6 @@
 (* C02 -- container level: pvRebalance and Remove(iterator) of an item stored in a leaf *)
 From Coq Require Import List ZArith Arith Lia Bool.
-From C02 Require Import BTreeModel BTreeBase BTreeSearch BTreeIter BTreeAdd BTreeRemove BTreeTop.
+From C02 Require Import BTreeModel BTreeBase BTreeSearch BTreeIter BTreeAdd BTreeRemove BTreeCtx BTreeRemove2 BTreeTrack BTreeRemove3 BTreeTop.
 Import ListNotations.
 
 Section RemTop.
@@ -46,6 +46,87 @@ Proof.
   - split; [rewrite (shape_height maxCap _ _ S2); exact S2|].
     rewrite C, <- Hfl, !app_length. simpl. lia.
   - rewrite <- Hfl. unfold remove_at. rewrite firstn_before.
+    replace (S (length (before p r j))) with (length (before p r j ++ [x])) by (rewrite app_length; simpl; lia).
+    replace (before p r j ++ x :: tl0) with ((before p r j ++ [x]) ++ tl0) by (rewrite <- app_assoc; reflexivity).
+    rewrite skipn_before. reflexivity.
+Qed.
+
+(* remove_refines: Remove(iter) for EVERY position that holds an item -- in a leaf, or a separator whose left subtree
+   has / has not items (pvRemoveInternal, pvDestroyInternal) -- followed by pvRebalance and pvMakeIterator(move) *)
+Theorem remove_refines t it :
+  twf t -> tvalid t it -> titem t it ->
+  let '(t', it') := remove t it in
+  twf t' /\ contents t' = remove_at (iter_index t it) (contents t) /\
+  norm t' it' /\ iter_index t' it' = iter_index t it.
+Proof.
+  unfold BTreeTop.twf, tvalid, titem, norm, iter_index, contents, end_iter, remove.
+  destruct (root t) as [r|] eqn:Er; [|tauto].
+  intros [Sh C] V H. destruct it as [p j]. cbn [fst snd] in *.
+  destruct (remove_root_spec maxCap ltac:(lia) _ r p j Sh V H) as (d' & S2 & F2 & V2 & H2 & B2).
+  destruct (remove_root r (p, j)) as [r2 it2]. cbn [fst snd root cnt] in *.
+  destruct (after_item maxCap _ p r j Sh V H) as (x & tl0 & _ & Ea).
+  pose proof (before_after maxCap _ p r j Sh V) as Hfl. rewrite Ea in *. cbn [tl] in F2.
+  pose proof (shape_height maxCap _ _ S2) as Hh.
+  unfold BTreeTop.twf, norm, tvalid, titem, iter_index, contents, end_iter. cbn [root cnt fst snd]. rewrite Hh.
+  split; [split; [exact S2|]|split; [|split; [split; [exact V2|]|]]].
+  - rewrite C, F2, <- Hfl, !app_length. simpl. lia.
+  - rewrite F2, <- Hfl. unfold remove_at. rewrite firstn_before.
+    replace (S (length (before p r j))) with (length (before p r j ++ [x])) by (rewrite app_length; simpl; lia).
+    replace (before p r j ++ x :: tl0) with ((before p r j ++ [x]) ++ tl0) by (rewrite <- app_assoc; reflexivity).
+    rewrite skipn_before. reflexivity.
+  - destruct H2 as [H2|H2]; [left; exact H2 | right; exact H2].
+  - rewrite B2. reflexivity.
+Qed.
+
+Lemma replace_at_same {A} j (x : A) l : nth_error l j = Some x -> replace_at j x l = l.
+Proof. intros E. unfold replace_at. symmetry. apply (nth_error_split l j x E). Qed.
+
+(* ResetKey(iter, key): the item at the iterator's position is overwritten in place *)
+Theorem reset_key_spec t it k :
+  twf t -> tvalid t it -> titem t it ->
+  let t' := reset_key t it k in
+  twf t' /\ contents t' = replace_at (iter_index t it) k (contents t).
+Proof.
+  assert (Hpos : 0 < maxCap) by lia.
+  unfold BTreeTop.twf, tvalid, titem, iter_index, contents, reset_key.
+  destruct (root t) as [r|] eqn:Er; [|tauto].
+  intros [Sh C] V H. destruct it as [p j]. cbn [fst snd root cnt] in *.
+  destruct (node_at_valid maxCap Hpos p _ r j Sh V) as (nd & En & Snd & _ & Lp).
+  pose proof (has_item_inv p r nd j En H) as Hj.
+  pose proof (valid_0 maxCap Hpos p _ r j V) as V0.
+  destruct (ctx_pos p _ r j nd V En) as [Bp Ap].
+  rewrite (update_at_const p _ r nd En).
+  set (nd' := Node (n_cap nd) (replace_at j k (n_items nd)) (n_children nd)).
+  assert (Hjk : j < length (n_items nd)) by exact Hj.
+  assert (Nd : shape (height r - length p) nd' /\ flatten nd' = before [] nd j ++ k :: tl (after [] nd j)).
+  { destruct (is_leaf nd) eqn:Lf.
+    - pose proof (shape_leaf _ _ _ Snd Lf) as Ed. rewrite Ed in *. pose proof Snd as (A1 & A2 & A3). split.
+      + unfold nd'. cbn [BTreeBase.shape]. unfold n_count in *. cbn [n_items n_cap n_children].
+        rewrite replace_at_length by lia. repeat split; auto; lia.
+      + unfold nd'. rewrite flatten_unfold. cbn [n_children n_items before after]. rewrite A3, Lf. cbn [map interleave].
+        destruct (nth_error_ex _ _ Hjk) as [x Ex]. rewrite (skipn_head' _ _ _ Ex). reflexivity.
+    - destruct (shape_internal _ _ _ Snd Lf) as [dd Edd]. rewrite Edd in *.
+      destruct (shape_child_ex _ _ _ j Snd (Nat.lt_le_incl _ _ Hj)) as (lch & El & Sl).
+      destruct (remove_node_some maxCap Hpos dd nd j lch lch k Snd Hj El Sl) as (S2 & F2 & _ & _).
+      rewrite (replace_at_same j lch _ El) in S2, F2. fold nd' in S2, F2. split; [exact S2|].
+      rewrite F2. cbn [before after]. rewrite Lf, (nth_flat nd j lch El), <- app_assoc. reflexivity. }
+  destruct Nd as [Snd' Fnd'].
+  destruct (update_ctx maxCap Hpos p _ r nd' Sh V0 Snd') as (S1 & N1 & B1 & A1 & V1).
+  pose proof (flatten_ctx maxCap p _ _ nd' S1 V1 N1) as F1. rewrite B1, A1, Fnd' in F1.
+  destruct (after_item maxCap _ p r j Sh V H) as (x & tl0 & _ & Ea).
+  pose proof (before_after maxCap _ p r j Sh V) as Hfl.
+  assert (Et : tl (after [] nd j) ++ ctxa p r = tl0).
+  { rewrite Ap in Ea. destruct (after [] nd j) as [|y ys] eqn:Ey.
+    - exfalso. cbn [after] in Ey. destruct (is_leaf nd).
+      + apply (f_equal (@length Z)) in Ey. rewrite skipn_length in Ey. simpl in Ey. lia.
+      + destruct (post_head nd j Hj) as [T ET]. congruence.
+    - cbn [tl]. simpl in Ea. congruence. }
+  assert (Fr : flatten (update_at p (fun _ => nd') r) = before p r j ++ k :: tl0).
+  { rewrite F1, Bp, <- Et, <- !app_assoc. reflexivity. }
+  split.
+  - split; [rewrite (shape_height maxCap _ _ S1); exact S1|].
+    rewrite C, Fr, <- Hfl, Ea, !app_length. simpl. lia.
+  - rewrite Fr, <- Hfl, Ea. unfold replace_at. rewrite firstn_before.
     replace (S (length (before p r j))) with (length (before p r j ++ [x])) by (rewrite app_length; simpl; lia).
     replace (before p r j ++ x :: tl0) with ((before p r j ++ [x]) ++ tl0) by (rewrite <- app_assoc; reflexivity).
     rewrite skipn_before. reflexivity.
